@@ -37,6 +37,10 @@ EXTENDS Integers, Sequences, FiniteSets, TLC, Json
 CONSTANTS NameExt,      \* "" | ".h5" | ".dmp" : the extension the logical name already carries;
                         \* ".5" : the name is 'data_T0.5' - a dot, but no engine extension - and a sibling
                         \* 'data_T0.25' lives in the same directory (ops SaveSib / LoadSib)
+                        \* "[1]" : 'data[1]' with the sibling 'data1';  "[T=0.5]" : 'sweep[T=0.5]' with 'sweepT';
+                        \* "*b" : 'a*b' with 'axb';  "?b" : 'a?b' with 'axb'  - names containing glob
+                        \* metacharacters are literal names (the sibling is a name the pattern would match)
+          GlobSites,    \* sites that treat a name with glob metacharacters as a PATTERN (deviation)
           NameRule,     \* "append" (the property) | "splitext" (an unknown suffix is REPLACED by the extension)
           Engine,       \* "h5netcdf" | "joblib" : the engine given with every call
           CtorEngine,   \* the engine the Harvester object was constructed with (may differ from Engine: the calls
@@ -71,10 +75,11 @@ vars == <<dir, content, fmt, mem, sess, live, want, last, hist, rt, sibLive, sib
 
 Sites == {"save", "load", "loadNewTest", "mergeTest", "mergeLoad", "harvTest", "harvLoad", "harvRemove", "harvSave", "delete"}
 Ext(e) == IF e = "h5netcdf" THEN ".h5" ELSE ".dmp"
-Root == IF NameExt = ".5" THEN "data_T0" ELSE "data"
+Root == CASE NameExt = ".5" -> "data_T0" [] NameExt = "[T=0.5]" -> "sweep" [] NameExt \in {"*b", "?b"} -> "a" [] OTHER -> "data"
 Name == Root \o NameExt
-SibExt == ".25"
+SibExt == CASE NameExt = "[1]" -> "1" [] NameExt = "[T=0.5]" -> "T" [] NameExt \in {"*b", "?b"} -> "xb" [] OTHER -> ".25"
 SibName == Root \o SibExt
+HasMagic == NameExt \in {"[1]", "[T=0.5]", "*b", "?b"}
 KnownExt(x) == x \in {".h5", ".dmp"}
 
 (* THE naming rule: the name as given when it carries an engine extension, else the name with the
@@ -90,12 +95,20 @@ FileAt(site) == IF site \in RawSites \/ (site \in BareIfExistsSites /\ Name \in 
                 ELSE CodeFile(Root, NameExt, EngAt(site))
 SibFileAt(site) == IF site \in RawSites THEN SibName ELSE CodeFile(Root, SibExt, EngAt(site))
 
-AllFiles == { n \o x : n \in {"data", "data.h5", "data.dmp", "data_T0", "data_T0.5", "data_T0.25"}, x \in {"", ".h5", ".dmp"} }
+AllFiles == { n \o x : n \in {"data", "data.h5", "data.dmp", "data_T0", "data_T0.5", "data_T0.25", Root, Name, SibName},
+                       x \in {"", ".h5", ".dmp"} }
 
 Read(file, eng) ==
     IF file \notin dir THEN [st |-> "nofile", val |-> {}]
     ELSE IF fmt[file] # eng THEN [st |-> "badformat", val |-> {}]
     ELSE [st |-> "ok", val |-> content[file]]
+
+(* a site that expands the name as a glob pattern: the literal file of a bracket name does not match its own
+   pattern, the sibling's file does; nothing matching gives an empty dataset *)
+ReadAt(site, eng) ==
+    IF site \in GlobSites /\ HasMagic
+       THEN [st |-> "ok", val |-> IF SibFileAt(site) \in dir THEN content[SibFileAt(site)] ELSE {}]
+       ELSE Read(FileAt(site), eng)
 
 NoRt == [pc |-> "off"]
 Outcome(op, st, val, old, wold) == [op |-> op, st |-> st, val |-> val, old |-> old, wold |-> wold]
@@ -144,7 +157,7 @@ ChunksAt(n) == IF n % 2 = 0 THEN "int" ELSE "none"
 Load ==
     /\ "Load" \in OpsOn
     /\ Len(hist) < MaxLen
-    /\ LET r == Read(FileAt("load"), Engine)
+    /\ LET r == ReadAt("load", Engine)
        IN  /\ last' = Outcome("Load", r.st, r.val, {}, {})
            /\ hist' = Append(hist, [op |-> "Load", pol |-> "none", p |-> 0, st |-> r.st,
                                     ch |-> IF Decoy = "none" THEN "none" ELSE ChunksAt(P),
@@ -335,6 +348,9 @@ AttrsOf(sel) ==
       [] sel = "ones"  -> [k \in {"i1", "i0", "x1", "x0", "n1"} |->
                               CASE k = "i1" -> "int:1" [] k = "i0" -> "int:0" [] k = "x1" -> "float:1.0"
                                 [] k = "x0" -> "float:0.0" [] k = "n1" -> "npint:1"]     \* numbers that EQUAL True / False
+      [] sel = "json"  -> [k \in {"jo", "je", "ja", "jn", "ju", "jq"} |->     \* plain STRINGS that look like serialised values
+                              CASE k = "jo" -> "text:obj" [] k = "je" -> "text:emptyobj" [] k = "ja" -> "text:arr"
+                                [] k = "jn" -> "text:num" [] k = "ju" -> "text:null" [] k = "jq" -> "text:quoted"]
       [] sel = "words" -> [k \in {"n", "t", "f"} |-> CASE k = "n" -> "str:None" [] k = "t" -> "str:True" [] k = "f" -> "str:False"]
       [] OTHER         -> [k \in {} |-> "x"]
 
@@ -343,17 +359,19 @@ Word(a) == CASE a = "py:None" -> "str:None" [] a = "py:True" -> "str:True" [] a 
 Documented(e, attrs) == IF e \in {"joblib", "zarr"} THEN attrs ELSE [k \in DOMAIN attrs |-> Word(attrs[k])]
 
 (* what save_ds does *)
+Decoded(a) == CASE a = "text:obj" -> "dict:obj" [] a = "text:emptyobj" -> "dict:empty" [] OTHER -> a
 WordEq(a) == CASE a \in {"int:1", "float:1.0", "npint:1"} -> "str:True" [] a \in {"int:0", "float:0.0"} -> "str:False"
                 [] OTHER -> Word(a)
 Stored(e, attrs) ==
-    CASE RtRule = "rewriteByEquality" -> IF e \notin {"joblib", "zarr"} THEN [k \in DOMAIN attrs |-> WordEq(attrs[k])] ELSE attrs
+    CASE RtRule = "decodeJsonText" -> IF e \notin {"joblib", "zarr"} THEN [k \in DOMAIN attrs |-> Decoded(Word(attrs[k]))] ELSE attrs
+      [] RtRule = "rewriteByEquality" -> IF e \notin {"joblib", "zarr"} THEN [k \in DOMAIN attrs |-> WordEq(attrs[k])] ELSE attrs
       [] RtRule = "rewriteAlways" -> [k \in DOMAIN attrs |-> Word(attrs[k])]
       [] RtRule = "rewriteNever"  -> attrs
       [] OTHER -> IF e \notin {"joblib", "zarr"} THEN [k \in DOMAIN attrs |-> Word(attrs[k])] ELSE attrs
 
 Configs == { [nd |-> nd, vdt |-> vdt, cdt |-> cdt, nan |-> nan, attrs |-> a, chunks |-> ch] :
                nd \in 0..4, vdt \in DTypes, cdt \in DTypes \cup {"-"}, nan \in {"none", "some", "all"},
-               a \in {"no", "all", "flags", "words", "ones"}, ch \in {"none", "int", "dict"} }
+               a \in {"no", "all", "flags", "words", "ones", "json"}, ch \in {"none", "int", "dict"} }
 GoodConfig(c) == /\ (c.nd = 0) <=> (c.cdt = "-")
                  /\ c.nan \in NanPats(c.vdt)
                  /\ (c.nd = 0) => c.chunks # "dict"
